@@ -313,8 +313,9 @@ type Case struct {
 }
 
 type genInput struct {
-	ID    string `json:"id"`
-	Items []Item `json:"items"`
+	ID     string        `json:"id"`
+	Items  []Item        `json:"items,omitempty"`
+	Choice []interface{} `json:"choice,omitempty"` // a member of the sequence families of CssSeq.tla: the specification builds the sheet
 }
 
 // runGen lets TLC compute the cases of the given abstract sheets (sharded over JVMs)
@@ -375,10 +376,20 @@ func runGen(r *core.Run, sheets []genInput, jvms, workers int) map[string]*Case 
 }
 
 // runMC model-checks one family of CssMC.tla; with export the enumerated sheets come back as cases
-func runMC(r *core.Run, cfg string, workers int, onCase func(*Case)) *tlcrun.Result {
+func runMC(r *core.Run, cfg string, workers int, onCase func(*Case), onLabel func(*seqMember)) *tlcrun.Result {
 	res := tlcrun.MustHold(r, tlcrun.Options{Module: "CssMC", Config: cfg, Workers: workers, TimeoutSec: r.Pick(600, 1500), HeapGB: 6,
 		OnCase: func(raw []byte) {
 			if onCase == nil {
+				return
+			}
+			if onLabel != nil && strings.HasPrefix(string(raw), `{"lab":true`) {
+				var m seqMember
+				if err := json.Unmarshal(raw, &m); err != nil || len(m.C) == 0 {
+					r.Logf("seq label decode: %v: %.200s", err, raw)
+					return
+				}
+				m.index()
+				onLabel(&m)
 				return
 			}
 			var c Case
